@@ -48,12 +48,10 @@ Proof.
 Qed.
 
 (* the regenerated selection never panics and is the specified selection, for every pattern string and every syntax tree *)
-Theorem gen_select_is_spec s re : gen_compileOptimized s re = Ok (spec_select s re).
+Theorem gen_select_is_spec s re : gen_compileOptimized s re = Ok (spec_select gen_prefix_table s re).
 Proof.
-  unfold gen_compileOptimized, spec_select, pat_upper, pat_lower.
-  set (t1 := bytes_eqb s [94; 92; 112; 123; 76; 117; 125]).
-  set (t2 := bytes_eqb s [94; 92; 112; 123; 76; 108; 125]).
-  destruct t1, t2; (destruct re; try reflexivity).
+  unfold gen_compileOptimized, spec_select.
+  destruct (table_find s gen_prefix_table) as [p_|]; cbn [option_map]; (destruct re; try reflexivity).
   all: try (
     (* Literal *)
     cbn [spec_shape]; rewrite lit_matcher_plain;
@@ -92,11 +90,8 @@ Section Equiv.
 Variable fold_rel : rune -> rune -> bool.
 Variable pred_fn : pred_id -> rune -> bool.
 Variable parses_to : bytes -> regex -> Prop.
-Hypothesis parse_upper : forall re, parses_to pat_upper re ->
-  exists rg, re = Concat [BeginText; CharClass rg] /\ forall c, in_ranges rg c = pred_fn PredIsUpper c.
-Hypothesis parse_lower : forall re, parses_to pat_lower re ->
-  exists rg, re = Concat [BeginText; CharClass rg] /\ forall c, in_ranges rg c = pred_fn PredIsLower c.
-Hypothesis pred_error : forall p, pred_fn p rune_error = false.
+Hypothesis table_sound : forall s p re, table_find s gen_prefix_table = Some p -> parses_to s re ->
+  exists rg, re = Concat [BeginText; CharClass rg] /\ (forall c, in_ranges rg c = pred_fn p c) /\ pred_fn p rune_error = false.
 
 Lemma gen_fast_path_equiv s re mt :
   parses_to s re -> gen_compileOptimized s re = Ok (Some mt) ->
@@ -105,7 +100,7 @@ Lemma gen_fast_path_equiv s re mt :
     (gen_match_string pred_fn mt b = true <-> search fold_rel re (decode b)).
 Proof.
   intros Hp Hs b Hb. rewrite gen_select_is_spec in Hs. injection Hs as Hs.
-  pose proof (spec_select_equiv fold_rel pred_fn parses_to parse_upper parse_lower pred_error s re mt Hp Hs b Hb) as H.
+  pose proof (spec_select_equiv fold_rel pred_fn parses_to gen_prefix_table table_sound s re mt Hp Hs b Hb) as H.
   split; (eapply iff_trans; [apply eq_true_iff_l|exact H]).
   - apply gen_match_bytes_is_spec.
   - apply gen_match_string_is_spec.
@@ -136,8 +131,7 @@ Lemma gen_literal_paths_only_plain s re v :
 Proof.
   rewrite !gen_select_is_spec. unfold spec_select.
   destruct (spec_shape re) as [mt|] eqn:E.
-  2:{ destruct (bytes_eqb s pat_upper); [intros [H|[H|[H|H]]]; discriminate|].
-      destruct (bytes_eqb s pat_lower); intros [H|[H|[H|H]]]; discriminate. }
+  2:{ destruct (table_find s gen_prefix_table); cbn [option_map]; intros [H|[H|[H|H]]]; discriminate. }
   intros H. assert (Hmt : mt = MContains v \/ mt = MPrefix v \/ mt = MSuffix v \/ mt = MEq v).
   { destruct H as [H|[H|[H|H]]]; injection H as ->; auto. }
   clear H. destruct re; cbn [spec_shape] in E; try discriminate.
